@@ -248,6 +248,76 @@ func caseReg(c *vlib.Cases, typ, fb string, rom bool, listings [][]mdl, hMask in
 	}
 }
 
+// caseRegHistory: several discovery rounds on one registry; after EVERY round every spelling is looked
+// up and routed, so that a lookup made while a model was listed cannot colour the lookup made after the
+// endpoint re-listed without it (routing must follow the LATEST listing, whatever was asked before).
+// A nil listing in a round leaves that endpoint untouched; an empty one re-lists it with nothing.
+func caseRegHistory(c *vlib.Cases, typ, fb string, rom bool, rounds [][][]mdl, hMask int, spellings []string) {
+	all := mkEndpoints()
+	disc := &fakeDisc{all: all, updated: pick(all, hMask)}
+	rc := &config.ModelRoutingStrategy{Type: typ, Options: config.ModelRoutingStrategyOptions{FallbackBehavior: fb, DiscoveryRefreshOnMiss: rom, DiscoveryTimeout: time.Second}}
+	base := runtime.NumGoroutine()
+	reg := registry.NewUnifiedMemoryModelRegistry(vlib.QuietLogger(), nil, rc, disc)
+	ctx := context.Background()
+	snap := func() string {
+		us, _ := reg.GetUnifiedModels(ctx)
+		var rows []string
+		for _, u := range us {
+			var src []string
+			for _, s := range u.SourceEndpoints {
+				src = append(src, s.EndpointURL+"="+s.NativeName)
+			}
+			sort.Strings(src)
+			rows = append(rows, u.ID+"|"+strings.Join(src, ","))
+		}
+		sort.Strings(rows)
+		return strings.Join(rows, ";")
+	}
+	effective := make([][]mdl, nEP)
+	healthy := pick(all, hMask)
+	for ri, round := range rounds {
+		for i, l := range round {
+			if i >= nEP || l == nil {
+				continue
+			}
+			ms := []*domain.ModelInfo{}
+			for _, m := range l {
+				ms = append(ms, mi(m))
+			}
+			if err := reg.RegisterModelsWithEndpoint(ctx, all[i], ms); err != nil {
+				continue
+			}
+			effective[i] = append([]mdl{}, l...)
+			quiesce(base, snap)
+		}
+		eff := make([][]mdl, nEP)
+		for i := range effective {
+			if effective[i] != nil {
+				eff[i] = append([]mdl{}, effective[i]...)
+			}
+		}
+		for _, sp := range spellings {
+			looked, _ := reg.GetEndpointsForModel(ctx, sp)
+			lk := []int{}
+			for _, u := range looked {
+				for i, e := range all {
+					if e.URLString == u {
+						lk = append(lk, i)
+					}
+				}
+			}
+			sort.Ints(lk)
+			got, dec, rerr := reg.GetRoutableEndpointsForModel(ctx, sp, healthy)
+			impl := decisionJSON(dec)
+			impl["eps"] = idsOf(all, got)
+			impl["err"] = rerr != nil
+			impl["lookup"] = lk
+			c.Emit(map[string]any{"kind": "reg", "typ": typ, "fb": fb, "rom": rom, "listings": eff, "healthy": ids(hMask),
+				"model": sp, "round": ri, "impl": impl})
+		}
+	}
+}
+
 // ------------------------------------------------------------------ production stack
 
 type httpCfg struct {
@@ -528,6 +598,43 @@ func main() {
 		sp := []string{"llama3", "Llama3", "LLAMA3", "llama3:latest", "phi", "PHI", "qwen", "mistral", "nope"}
 		caseReg(c, cf.typ, cf.fb, cf.rom, listings, r.Intn(16), sp)
 		c.Count("reg." + cf.typ)
+	}
+
+	// discovery histories: a model is asked for while listed, the endpoint re-lists without it, it is asked for again
+	caseRegHistory(c, "strict", "compatible_only", false, [][][]mdl{
+		{{{"Qwen2.5-Coder:7B", ""}}, {{"Qwen2.5-Coder:7B", ""}}, nil, nil},
+		{{{"other", ""}}, nil, nil, nil},
+		{nil, {}, nil, nil}}, 0b0011, []string{"qwen2.5-coder:7b", "Qwen2.5-Coder:7B", "QWEN2.5-CODER:7B", "other", "nope"})
+	nhist := 60
+	if thorough {
+		nhist = 1500
+	}
+	hnames := []string{"Beta", "Qwen2.5-Coder:7B", "alpha", "Gamma:Latest", "phi"}
+	hsp := []string{"beta", "Beta", "BETA", "qwen2.5-coder:7b", "alpha", "ALPHA", "gamma:latest", "gamma", "phi", "nope"}
+	for i := 0; i < nhist; i++ {
+		cf := cfgs[r.Intn(len(cfgs))]
+		nr := 2 + r.Intn(3)
+		rounds := make([][][]mdl, nr)
+		for ri := range rounds {
+			rounds[ri] = make([][]mdl, nEP)
+			for e := 0; e < nEP; e++ {
+				if ri > 0 && r.Chance(1, 2) {
+					continue // unchanged this round
+				}
+				l := []mdl{}
+				seen := map[string]bool{}
+				for j := 0; j < r.Intn(3); j++ {
+					n := vlib.Pick(r, hnames)
+					if !seen[n] {
+						seen[n] = true
+						l = append(l, mdl{n, ""})
+					}
+				}
+				rounds[ri][e] = l
+			}
+		}
+		caseRegHistory(c, cf.typ, cf.fb, cf.rom, rounds, 1+r.Intn(15), hsp)
+		c.Count("reghist." + cf.typ)
 	}
 
 	// production stack
